@@ -178,6 +178,9 @@ def run_pipe(env, case, timeout=60):
 
 def err_summary(err):
     ls = err.splitlines()
+    for l in ls[:3]:
+        if "memory allocation" in l:
+            return l.strip()[:300]
     for i, l in enumerate(ls):
         if "panicked at" in l or "error[" in l or "rror" in l and "-->" not in l:
             return " | ".join(x.strip() for x in ls[i:i + 2])[:300]
@@ -201,7 +204,9 @@ def run_model(env, name, cases):
             f.write("C %d %d %s %s\n" % (cid, c["k"], hexs(c["text"]), ",".join(str(x) for x in c["sched"]) or "-"))
     if os.path.exists(outp):
         os.remove(outp)
-    rc, out = common.sh([common.NSMODEL, "readline", inp, outp], timeout=3000)
+    # the extracted list functions are not tail-recursive: texts of several hundred KB need more
+    # than the default 8 MiB of stack
+    rc, out = common.sh("ulimit -s unlimited 2>/dev/null; exec '%s' readline '%s' '%s'" % (common.NSMODEL, inp, outp), timeout=3000)
     if rc != 0 or not os.path.exists(outp):
         return None, "nsmodel readline rc=%s %s" % (rc, out[-400:])
     res = {}
@@ -523,6 +528,366 @@ def case_json(case, res=None):
     return d
 
 
+# ----------------------------------------------------------------------------- long runs
+#
+# The property quantifies over line COUNTS as well: a script that reads N lines in a loop must get
+# every one of them and end normally for large N too, i.e. nothing a read_line call allocates may
+# outlive the loop iteration that asked for it.  Two observations:
+#   * the real binary on N-line inputs (N up to 40 000 quick, 1 000 000 thorough; a few thousand
+#     lines of 10-40 KB) under several chunkings: stdout (every line echoed, or a count and a rolling
+#     checksum computed by the script) against the split of the text, exit status 0;
+#   * the footprint, through `nsverif readline` (the CLI's run_source replica with the arena
+#     accessors): the persistent arena's growth and the frame arena's offset after the run must be
+#     the same for k = 100 and k = 1000 lines read - a leak shows long before it exhausts the arena.
+
+KEY_LONG = "long-run-lines-lost-or-abort"
+KEY_LEAK = "arena-grows-with-line-count"
+ARENA_BYTES = 256 * 1024 * 1024
+
+LONG_SCRIPTS = {
+    # the first input line carries the number of calls that follow, so one script serves every N
+    "echo": 'make k get read_line("").to_number()\nmake i get 0\njasi (i small pass k) start\n'
+            '    make l get read_line("")\n    shout(l)\n    i get i add 1\nend\n',
+    "direct": 'make k get read_line("").to_number()\nmake i get 0\njasi (i small pass k) start\n'
+              '    shout(read_line(""))\n    i get i add 1\nend\n',
+    "outer": 'make k get read_line("").to_number()\nmake l get read_line("")\nshout(l)\nmake i get 1\n'
+             'jasi (i small pass k) start\n    l get read_line("")\n    shout(l)\n    i get i add 1\nend\n',
+    # nothing is printed inside the loop: count of empty results and a rolling checksum at the end
+    "sum": 'make k get read_line("").to_number()\nmake i get 0\nmake c get 0\nmake e get 0\n'
+           'jasi (i small pass k) start\n    make l get read_line("")\n    make n get l.len()\n'
+           '    if to say (n na 0) start\n        e get e add 1\n    end\n'
+           '    c get ((c times 31) add (n times 7) add l.find("e") add 1) mod 1000003\n'
+           '    i get i add 1\nend\nshout(c)\nshout(e)\n',
+    "outersum": 'make k get read_line("").to_number()\nmake i get 0\nmake c get 0\nmake l get "x"\n'
+                'jasi (i small pass k) start\n    l get read_line("")\n'
+                '    c get ((c times 31) add (l.len() times 7) add l.find("e") add 1) mod 1000003\n'
+                '    i get i add 1\nend\nshout(c)\nshout(l.len())\n',
+}
+
+
+def long_lines(seed, n, kind):
+    """n lines, deterministic in (seed, kind), and the first m lines are the same for every n >= m."""
+    import random
+    rng = random.Random("%s/%s" % (seed, kind))
+    if kind == "num":
+        return [b"%d" % rng.randrange(10 ** 6) for _ in range(n)]
+    if kind in ("ascii", "mixed"):
+        pool = []
+        for _ in range(1024):
+            if kind == "mixed" and rng.random() < 0.45:
+                t = "".join(rng.choice(MULTI) if rng.random() < 0.5 else chr(rng.choice(ASCII)) for _ in range(rng.randint(0, 10))).encode()
+                if rng.random() < 0.2:
+                    t += b"\r"
+            else:
+                t = bytes(rng.choice(ASCII) for _ in range(rng.randint(0, 24)))
+            pool.append(t)
+        empty = 0.03 if kind == "mixed" else 0.0
+        return [b"" if rng.random() < empty else b"%d %s" % (i, pool[rng.randrange(1024)]) for i in range(n)]
+    if kind in ("a300", "long10k", "long40k", "longmix"):
+        unit = bytes(rng.choice(ASCII) for _ in range(61))
+        out = []
+        for i in range(n):
+            ln = {"a300": 300, "long10k": 10000, "long40k": 40000}.get(kind) or rng.choice([10000, 16384, 20000, 32768, 40000, rng.randint(10000, 40000)])
+            head = b"%d:" % i
+            out.append((head + unit * (ln // 61 + 1))[:ln])
+        return out
+    raise ValueError(kind)
+
+
+def long_sched(seed, chunking, lines_with_count):
+    import random
+    rng = random.Random("%s/sched/%s" % (seed, chunking))
+    total = sum(len(l) + 1 for l in lines_with_count)
+    if chunking == "all":
+        return []
+    if chunking == "line":
+        return [len(l) + 1 for l in lines_with_count]
+    if chunking == "bytes":
+        return [1] * total
+    if chunking == "8k":
+        return [rng.choice([8191, 8192, 8193]) for _ in range(total // 8191 + 1)]
+    if chunking == "rand":
+        out, left = [], total
+        while left > 0:
+            s = rng.choice([1, 2, 3, 5, 17, 100]) if rng.random() < 0.3 else rng.randint(1, 3000)
+            out.append(s)
+            left -= s
+        return out
+    raise ValueError(chunking)
+
+
+def long_expected(style, lines, calls):
+    """stdout the script must produce when it makes `calls` read_line calls after the count line."""
+    got = lines[:calls] + [b""] * max(0, calls - len(lines))
+    if style in ("echo", "direct", "outer"):
+        return b"".join(l + b"\n" for l in got)
+    c = e = 0
+    last = b"x"
+    for l in got:
+        sx = l.decode("utf-8")
+        n = len(sx)
+        if n == 0:
+            e += 1
+        c = (c * 31 + n * 7 + sx.find("e") + 1) % 1000003
+        last = l
+    if style == "sum":
+        return b"%d\n%d\n" % (c, e)
+    return b"%d\n%d\n" % (c, len(last.decode("utf-8")))
+
+
+def long_case_files(env, tag, spec):
+    """Builds the text of a long-run case; returns (text path, lines, calls, sched)."""
+    lines = long_lines(spec["seed"], spec["n"], spec["kind"])
+    calls = spec["n"] + spec.get("extra_calls", 0)
+    with_count = [b"%d" % calls] + lines
+    tpath = os.path.join(env.work, tag + ".txt")
+    with open(tpath, "wb") as f:
+        f.write(b"".join(l + b"\n" for l in with_count))
+    return tpath, lines, calls, with_count
+
+
+def long_script(env, style):
+    p = os.path.join(env.work, "long_%s.ns" % style)
+    with _script_lock:
+        if not os.path.exists(p):
+            with open(p + ".tmp", "w") as f:
+                f.write(LONG_SCRIPTS[style])
+            os.replace(p + ".tmp", p)
+    return p
+
+
+def run_long(env, tag, spec, want_log=False, timeout=600):
+    """One long run of the real binary under the shim.  Returns dict(ok, rc, lines_ok, err, secs, log)."""
+    tpath, lines, calls, with_count = long_case_files(env, tag, spec)
+    sched = long_sched(spec["seed"], spec["chunking"], with_count)
+    spath, lpath, opath = [os.path.join(env.work, tag + x) for x in (".sched", ".log", ".out")]
+    with open(spath, "w") as f:
+        f.write(",".join(str(x) for x in sched))
+    e = dict(os.environ)
+    e.update(LD_PRELOAD=shim_path(), READSHIM_SCHED=spath)
+    if want_log:
+        if os.path.exists(lpath):
+            os.remove(lpath)
+        e["READSHIM_LOG"] = lpath
+    t0 = time.time()
+    res = {"timeout": False, "log": None, "sched": sched}
+    try:
+        with open(tpath, "rb") as fin, open(opath, "wb") as fout:
+            p = subprocess.run([common.naija_bin(False), long_script(env, spec["style"])], stdin=fin, stdout=fout,
+                               stderr=subprocess.PIPE, env=e, timeout=timeout)
+        rc, err = p.returncode, p.stderr[-8000:].decode("utf-8", "replace")
+    except subprocess.TimeoutExpired:
+        rc, err = 124, "[timeout]"
+        res["timeout"] = True
+    out = open(opath, "rb").read() if os.path.exists(opath) else b""
+    want = long_expected(spec["style"], lines, calls)
+    ok = rc == 0 and out == want
+    lines_ok = 0
+    if not ok and spec["style"] in ("echo", "direct", "outer"):
+        for a, b in zip(out.split(b"\n"), want.split(b"\n")):
+            if a != b:
+                break
+            lines_ok += 1
+    if want_log and os.path.exists(lpath):
+        res["log"] = [tuple(int(x) for x in l.split()) for l in open(lpath).read().split("\n") if l.strip()]
+    res.update(ok=ok, rc=rc, err=err, secs=round(time.time() - t0, 2), lines_ok=lines_ok, out_head=out[:120],
+               want_head=want[:120], text_path=tpath)
+    for p_ in (spath, lpath, opath):
+        if os.path.exists(p_):
+            os.remove(p_)
+    return res
+
+
+def run_footprint(env, tag, style, kind, k, seed):
+    """`nsverif readline`: the script run as the CLI runs it, arena offsets read back."""
+    spec = {"seed": seed, "n": k, "kind": kind, "style": style, "extra_calls": 0}
+    tpath, lines, calls, _ = long_case_files(env, tag, spec)
+    opath = os.path.join(env.work, tag + ".fp")
+    if os.path.exists(opath):
+        os.remove(opath)
+    e = dict(os.environ)
+    e.pop("LD_PRELOAD", None)
+    try:
+        with open(tpath, "rb") as fin:
+            p = subprocess.run([common.harness_bin(), "readline", long_script(env, style), opath], stdin=fin,
+                               stdout=subprocess.PIPE, stderr=subprocess.PIPE, env=e, timeout=300)
+        rc, out, err = p.returncode, p.stdout, p.stderr[-2000:].decode("utf-8", "replace")
+    except subprocess.TimeoutExpired:
+        rc, out, err = 124, b"", "[timeout]"
+    os.remove(tpath)
+    rec = {"rc": rc, "err": err, "stdout_ok": out == long_expected(style, lines, calls), "k": k}
+    if os.path.exists(opath):
+        w = open(opath).read().split()
+        os.remove(opath)
+        rec["ending"] = w[1] if len(w) > 1 else "?"
+        for x in w[2:]:
+            a, _, b = x.partition("=")
+            rec[a] = int(b)
+    return rec
+
+
+def spec_json(spec):
+    return {k: spec[k] for k in ("seed", "n", "kind", "style", "chunking", "extra_calls") if k in spec}
+
+
+def minimise_n(env, spec, budget=14):
+    """Smallest line count (same generator, same chunking recipe) on which the run still fails."""
+    lo, hi = 0, spec["n"]          # lo passes (or untested 0), hi fails
+    runs = 0
+    while hi - lo > 1 and runs < budget:
+        mid = (lo + hi) // 2
+        r = run_long(env, "min%d" % runs, dict(spec, n=mid))
+        if os.path.exists(r["text_path"]):
+            os.remove(r["text_path"])
+        runs += 1
+        if r["timeout"] or r["ok"]:
+            lo = mid
+        else:
+            hi = mid
+    return hi
+
+
+def long_runs(env, ex, model):
+    """The long-run family.  Returns (evaluations, failures, disagreements, extra dict)."""
+    quick = env.tier == "quick"
+    seed = env.seed
+    failures, disagreements = [], []
+    extra = {"runs": [], "footprint": []}
+    specs = []
+    sizes = [1000, 40000] if quick else [1000, 40000, 200000, 1000000]
+    for n in sizes:
+        if n <= 40000:
+            combos = [("echo", "mixed", "all"), ("echo", "mixed", "line"), ("echo", "ascii", "rand"), ("direct", "mixed", "rand"),
+                      ("direct", "num", "8k"), ("outer", "mixed", "all"), ("outer", "ascii", "line"), ("sum", "ascii", "rand"),
+                      ("sum", "num", "all"), ("outersum", "ascii", "8k"), ("echo", "ascii", "bytes")]
+        else:
+            combos = [("echo", "mixed", "all"), ("direct", "ascii", "rand"), ("outer", "mixed", "line"), ("sum", "ascii", "8k"),
+                      ("sum", "num", "rand")]
+        for style, kind, chunking in combos:
+            specs.append({"seed": seed, "n": n, "kind": kind, "style": style, "chunking": chunking, "extra_calls": 2})
+    for n, kind in ([(1500, "longmix"), (600, "long40k")] if quick else [(4000, "longmix"), (2500, "long40k"), (6000, "long10k")]):
+        for style, chunking in (("echo", "all"), ("sum", "rand"), ("direct", "8k")):
+            specs.append({"seed": seed, "n": n, "kind": kind, "style": style, "chunking": chunking, "extra_calls": 1})
+
+    # the model on the same text for the cases it can afford (it is list-based): all 1000-line
+    # cases with their read logs, and one 40 000-line case
+    modelled = [i for i, sp in enumerate(specs) if sp["n"] == 1000 or (sp["n"] == 40000 and sp["style"] == "echo" and sp["chunking"] == "rand")]
+    futs = {i: ex.submit(run_long, env, "long%d" % i, sp, i in modelled) for i, sp in enumerate(specs)}
+
+    # footprint: same script, k = 100 and k = 1000
+    fp_cfg = [("sum", "ascii"), ("sum", "num"), ("sum", "a300"), ("sum", "long10k"), ("sum", "long40k"), ("outersum", "ascii"), ("outersum", "num")]
+    fp_futs = {}
+    for j, (style, kind) in enumerate(fp_cfg):
+        for k in (100, 1000):
+            fp_futs[(j, k)] = ex.submit(run_footprint, env, "fp%d_%d" % (j, k), style, kind, k, seed)
+
+    evaluations = 0
+    results = {}
+    for i, sp in enumerate(specs):
+        r = futs[i].result()
+        results[i] = r
+        if i not in modelled and os.path.exists(r["text_path"]):
+            os.remove(r["text_path"])
+        if r["timeout"]:
+            extra["runs"].append(dict(spec_json(sp), result="timeout"))
+            if os.path.exists(r["text_path"]):
+                os.remove(r["text_path"])
+            continue
+        evaluations += 1
+        extra["runs"].append(dict(spec_json(sp), ok=r["ok"], secs=r["secs"]))
+        if not r["ok"] and not any(f["key"] == KEY_LONG for f in failures):
+            nmin = minimise_n(env, sp)
+            rmin = run_long(env, "minfinal", dict(sp, n=nmin))
+            if os.path.exists(rmin["text_path"]):
+                os.remove(rmin["text_path"])
+            if rmin["ok"]:
+                nmin, rmin = sp["n"], r
+            failures.append({"key": KEY_LONG, "case": {"long_run": dict(spec_json(sp), n=nmin)},
+                             "observed": "rc=%s after %s of %d lines echoed correctly; %s" % (
+                                 rmin["rc"], rmin["lines_ok"] if sp["style"] in ("echo", "direct", "outer") else "?",
+                                 nmin + sp["extra_calls"], err_summary(rmin["err"]) if rmin["rc"] != 0 else
+                                 "stdout %r, wanted %r" % (rmin["out_head"][:60], rmin["want_head"][:60]))})
+
+    # model comparison for the affordable cases
+    if model:
+        mcases = []
+        for i in modelled:
+            r = results[i]
+            if r["timeout"] or not os.path.exists(r["text_path"]):
+                continue
+            text = open(r["text_path"], "rb").read()
+            mcases.append((i, {"text": text, "sched": r["sched"], "k": specs[i]["n"] + specs[i]["extra_calls"] + 1}))
+        mfuts = [ex.submit(run_model, env, "mlong%d" % i, [(i, c)]) for i, c in mcases]
+        for (i, c), fu in zip(mcases, mfuts):
+            mres, merr = fu.result()
+            if mres is None or mres.get(i) is None:
+                disagreements.append({"stream": "readline-model-long-run", "error": merr or "no output", "long_run": spec_json(specs[i])})
+                continue
+            mlines, mtrace, xl = mres[i]
+            want = oracle_lines(c["text"], c["k"])
+            if mlines is None:
+                disagreements.append({"stream": "readline-model-long-run", "error": "model faulted or ran out of fuel", "long_run": spec_json(specs[i])})
+            elif mlines != want or xl != want:
+                disagreements.append({"stream": "readline-reference-vs-python-oracle", "long_run": spec_json(specs[i])})
+            elif results[i]["ok"] and results[i]["log"] is not None and mtrace != results[i]["log"]:
+                d = next((j for j, (a, b) in enumerate(zip(mtrace, results[i]["log"])) if a != b), min(len(mtrace), len(results[i]["log"])))
+                disagreements.append({"stream": "readline-read-trace-long-run", "long_run": spec_json(specs[i]), "first_difference_at_read": d,
+                                      "model_reads": mtrace[max(0, d - 2):d + 3], "impl_reads": results[i]["log"][max(0, d - 2):d + 3]})
+            extra.setdefault("modelled_long_runs", []).append(spec_json(specs[i]))
+    for r in results.values():
+        if os.path.exists(r["text_path"]):
+            os.remove(r["text_path"])
+
+    # footprint
+    for j, (style, kind) in enumerate(fp_cfg):
+        a, b = fp_futs[(j, 100)].result(), fp_futs[(j, 1000)].result()
+        evaluations += 2
+        rec = {"style": style, "kind": kind}
+        bad = None
+        for r in (a, b):
+            if r["rc"] != 0 or r.get("ending") != "ok" or not r["stdout_ok"] or "arena_after" not in r:
+                bad = "run of k=%d lines through nsverif readline: rc=%s ending=%s stdout_ok=%s %s" % (
+                    r["k"], r["rc"], r.get("ending"), r["stdout_ok"], err_summary(r["err"]))
+        if bad is None:
+            ga, gb = a["arena_after"] - a["arena_before"], b["arena_after"] - b["arena_before"]
+            rec.update(arena_growth_k100=ga, arena_growth_k1000=gb, frame_after_k100=a["frame_after"], frame_after_k1000=b["frame_after"],
+                       frame_resets_k1000=b.get("resets"), pool_returns_k1000=b.get("returns"))
+            # What may legitimately stay: a string longer than the pool's largest slot (256 bytes) that is
+            # bound to a variable is copied once, at its exact length, to the persistent arena (such
+            # buffers are never recycled: C12), i.e. at most the bytes of the lines themselves; short
+            # lines go to pool slots that are returned every iteration, i.e. nothing.  The frame arena is
+            # reset every iteration; its final offset depends on the last line only.
+            lens = [len(l) for l in long_lines(seed, 1000, kind)[100:]]
+            allowed = 0 if max(lens) <= 200 else sum(lens)
+            frame_slack = 262144
+            rec["allowed_extra_growth"] = allowed
+            if gb - ga > allowed or b["frame_after"] - a["frame_after"] > frame_slack:
+                per_call = max(gb - ga - allowed, b["frame_after"] - a["frame_after"]) / 900.0
+                bad = ("after reading k lines in a loop the persistent arena has grown by %d bytes for k=100 and %d for k=1000 "
+                       "(at most %d more are explained by the lines themselves; frame arena offset %d vs %d): about %.0f bytes "
+                       "per read_line call are never reclaimed"
+                       % (ga, gb, allowed, a["frame_after"], b["frame_after"], per_call))
+                rec["per_call_bytes"] = per_call
+        extra["footprint"].append(rec)
+        if bad and not any(f["key"] == KEY_LEAK for f in failures):
+            # make it a concrete failing input when the arena would be exhausted within reach
+            confirm = None
+            pc = rec.get("per_call_bytes", 0)
+            if pc > 0:
+                need = int(ARENA_BYTES / pc) + 2000
+                if need <= (300000 if quick else 3000000):
+                    sp = {"seed": seed, "n": need, "kind": kind, "style": style, "chunking": "all", "extra_calls": 0}
+                    r = run_long(env, "leakconfirm", sp)
+                    if os.path.exists(r["text_path"]):
+                        os.remove(r["text_path"])
+                    if not r["timeout"] and not r["ok"]:
+                        confirm = {"long_run": spec_json(sp), "rc": r["rc"], "stderr": err_summary(r["err"])}
+            failures.append({"key": KEY_LEAK, "case": {"footprint": {"style": style, "kind": kind, "seed": seed}, "confirmed_by": confirm},
+                             "observed": bad + ("; confirmed: a run of %d lines ends with rc=%s %s" % (
+                                 confirm["long_run"]["n"], confirm["rc"], confirm["stderr"]) if confirm else "")})
+    return evaluations, failures, disagreements, extra
+
+
 # ----------------------------------------------------------------------------- the check
 
 def private_work(env):
@@ -562,6 +927,20 @@ def correspond_in(env, searching=False, model=True):
 
     corpus = load_corpus()
     n_corpus = len(corpus)
+
+    # the long-run family runs beside the random cases, on its own threads
+    long_box = {}
+
+    def long_thread():
+        try:
+            with concurrent.futures.ThreadPoolExecutor(max_workers=6) as lex:
+                long_box["res"] = long_runs(env, lex, model)
+        except Exception:  # noqa
+            import traceback
+            long_box["crash"] = traceback.format_exc()
+
+    lt = threading.Thread(target=long_thread)
+    lt.start()
 
     failures, disagreements, samples = [], [], []
     seen_keys = set()
@@ -729,6 +1108,17 @@ def correspond_in(env, searching=False, model=True):
                 failures.append({"key": key, "case": case_json(case, res), "mode": mode,
                                  "observed": "without the shim (%s): rc=%s, stdout differs from the pieces of the text" % (mode, res["rc"])})
 
+    lt.join()
+    if "crash" in long_box:
+        raise RuntimeError("long-run family crashed:\n" + long_box["crash"])
+    l_eval, l_fail, l_dis, l_extra = long_box["res"]
+    evaluations += l_eval
+    failing_cases += len(l_fail)
+    for f in l_fail:
+        if f["key"] not in seen_keys:
+            seen_keys.add(f["key"])
+            failures.append(f)
+    disagreements += l_dis
     hist["pipe_or_file_runs_without_shim"] = pipe_runs
     hist["failing_cases"] = failing_cases
     hist["inconclusive_timeouts"] = inconclusive
@@ -742,11 +1132,15 @@ def correspond_in(env, searching=False, model=True):
         "rule": "(text, schedule of piece sizes, k) cases: real naija under the read(2) shim vs extracted ReadLine.run vs text.split(b'\\n'); "
                 "compared: the k printed lines (bytes) and the full (count requested, bytes returned) log of every read on fd 0; "
                 "non-trivial = passing case, distinct (text, realised read sizes, k), in which some read returned bytes past a newline "
-                "(carry-over used) or a line was assembled from more than one read; plus pipe/file runs without the shim against the oracle",
+                "(carry-over used) or a line was assembled from more than one read; plus pipe/file runs without the shim against the oracle; "
+                "plus the long-run family: loop scripts reading N lines (N up to 40 000 quick / 1 000 000 thorough short lines, thousands of "
+                "10-40 KB lines) under five chunkings, every line echoed or a count + rolling checksum printed at the end, exit status 0, "
+                "the 1000-line and one 40 000-line case also against the extracted model with read logs; and the footprint through "
+                "`nsverif readline`: persistent-arena growth and frame-arena offset equal for k = 100 and k = 1000 lines read",
         "samples": samples,
         "failures": failures,
         "disagreements": disagreements,
-        "extra": {"input_distribution": hist},
+        "extra": {"input_distribution": hist, "long_runs": l_extra},
     }
 
 
@@ -767,6 +1161,27 @@ def replay_in(env, payload):
     common.build_nsmodel()
     case = payload.get("case") or (payload.get("disagreements") or [{}])[0]
     cj = case.get("case", case)
+    if "long_run" in cj or "long_run" in case or "footprint" in cj:
+        bad = False
+        sp = cj.get("long_run") or case.get("long_run") or (cj.get("confirmed_by") or {}).get("long_run")
+        if sp:
+            r = run_long(env, "replay", dict(sp))
+            if os.path.exists(r["text_path"]):
+                os.remove(r["text_path"])
+            print("long run %s: rc=%s ok=%s %s" % (sp, r["rc"], r["ok"], err_summary(r["err"]) if r["rc"] else ""))
+            bad = bad or not r["ok"]
+        fp = cj.get("footprint")
+        if fp:
+            common.build_harness()
+            a = run_footprint(env, "rfp100", fp["style"], fp["kind"], 100, fp["seed"])
+            b = run_footprint(env, "rfp1000", fp["style"], fp["kind"], 1000, fp["seed"])
+            print("footprint k=100 : %s" % a)
+            print("footprint k=1000: %s" % b)
+            same = all("arena_after" in r for r in (a, b)) and a["arena_after"] - a["arena_before"] == b["arena_after"] - b["arena_before"] \
+                and a["frame_after"] == b["frame_after"]
+            bad = bad or not same
+        print("replay: %s" % ("still failing" if bad else "passes now"))
+        return 1 if bad else 0
     hx = cj.get("text_hex") if cj.get("text_hex") is not None else cj.get("text_hex_full")
     if hx is None:
         print("replay: no concrete case in this file (obligations: %s)" % payload.get("no_longer_checks"))
